@@ -104,6 +104,15 @@ type caseDesc struct {
 	// a step of a retry sequence on ONE caching client: the same Get with the reply corrupt, still corrupt, healed
 	Retry     []string `json:"retry,omitempty"`
 	RetryStep int      `json:"retry_step,omitempty"`
+	// a call of a request sequence on ONE caching client (overlapping ranges, honest node or one corrupted reply)
+	ReqSeq  []reqStep `json:"req_seq,omitempty"`
+	ReqStep int       `json:"req_step,omitempty"`
+}
+
+type reqStep struct {
+	Start   uint64               `json:"start"`
+	Limit   uint64               `json:"limit"`
+	Corrupt []simnode.Corruption `json:"corrupt,omitempty"`
 }
 
 // the client shared by the steps of a retry sequence (nil: a fresh client per Get)
@@ -393,6 +402,58 @@ func addRetry(out *lib.Out, ns *nodes, p planFlags, start, limit uint64, c simno
 	}
 }
 
+// addReqSeq: several Gets of one plan over overlapping ranges on ONE caching client.  Every call is an ordinary
+// case: exactly the requested numbers, linked, every block complete w.r.t. the node's chain, or an error; a
+// corrupted reply in the middle must not poison a later honest call.
+func addReqSeq(out *lib.Out, ns *nodes, p planFlags, seq []reqStep, kind string) {
+	_, node := ns.pick(p, seq[0].Start)
+	sharedClient = jrpc2.New(node.URL() + "/cached")
+	defer func() { sharedClient = nil }()
+	for i, st := range seq {
+		n0 := len(out.Cases)
+		addGet(out, ns, p, st.Start, st.Limit, st.Corrupt, true, false, kind)
+		d := out.Cases[n0].Desc.(caseDesc)
+		d.ReqSeq, d.ReqStep = seq, i
+		out.Cases[n0].Desc = d
+		if !out.Cases[n0].OracleOK {
+			var calls []string
+			for _, x := range seq[:i+1] {
+				c := ""
+				if len(x.Corrupt) > 0 {
+					c = " corrupted:" + x.Corrupt[0].Kind
+				}
+				calls = append(calls, fmt.Sprintf("Get(%d,%d)%s", x.Start, x.Limit, c))
+			}
+			out.Cases[n0].OracleMsg += " -- call " + fmt.Sprint(i+1) + " of a sequence on one caching client: " + strings.Join(calls, " ; ")
+		}
+	}
+}
+
+// the fixed request sequences, relative to s
+func reqSequences(s uint64) [][]reqStep {
+	r := func(xs ...uint64) []reqStep {
+		var l []reqStep
+		for i := 0; i+1 < len(xs); i += 2 {
+			l = append(l, reqStep{Start: s + xs[i], Limit: xs[i+1]})
+		}
+		return l
+	}
+	return [][]reqStep{
+		r(0, 3, 0, 2),             // same start, smaller limit
+		r(0, 2, 0, 3),             // same start, larger limit
+		r(0, 4, 0, 1, 0, 2),       //
+		r(0, 3, 1, 2),             // same end
+		r(1, 2, 0, 3),             //
+		r(0, 4, 1, 2),             // nested
+		r(1, 2, 0, 4),             //
+		r(0, 2, 2, 2),             // adjacent
+		r(2, 2, 0, 2),             //
+		r(0, 2, 0, 2, 0, 2),       // repeated
+		r(0, 3, 0, 3, 0, 1, 0, 3), //
+		r(0, 1, 0, 2, 0, 3, 0, 4), // growing
+	}
+}
+
 // ---- Hash / Latest
 func addHead(out *lib.Out, ns *nodes, op string, n uint64, cs []simnode.Corruption) {
 	node := ns.n["A0"]
@@ -478,7 +539,7 @@ func runC07(cfg Cfg) error {
 	}
 	rng := lib.NewRNG(cfg.Seed)
 	out := lib.NewOut("C07", cfg.Out, c07Header, "run", 100)
-	out.Rule = "real jrpc2.Client.Get (nocache URL; a cached sample) against the scripted node for every plan and range: honest replies, every single corruption of the listed classes (thorough: every position; quick: every class per exchange, positions rotated by the seed), random double corruptions; for every rejected corruption of the block/header reply (plans h b hl br) the same Get twice more on the same caching client (still corrupt, healed); Hash/Latest on null/error/transport replies. Compared with the Coq model: ok/err/panic and the canonical dump; oracle: the property's demand computed from the bytes sent. non-trivial = a corruption was applied or the result carries attached items"
+	out.Rule = "real jrpc2.Client.Get (nocache URL; a cached sample) against the scripted node for every plan and range: honest replies, every single corruption of the listed classes (thorough: every position; quick: every class per exchange, positions rotated by the seed), random double corruptions; for every rejected corruption of the block/header reply (plans h b hl br) the same Get twice more on the same caching client (still corrupt, healed); request sequences of 2-5 Gets over overlapping ranges (same start smaller/larger limit, same end, nested, adjacent, repeated, growing; one corrupted reply in the middle; random) on one caching client for the plans h b hr hl ht br bl bt; Hash/Latest on null/error/transport replies. Compared with the Coq model: ok/err/panic and the canonical dump; oracle: the property's demand computed from the bytes sent. non-trivial = a corruption was applied or the result carries attached items"
 	ns := newNodes()
 	defer ns.close()
 
@@ -539,7 +600,7 @@ func runC07(cfg Cfg) error {
 				nsingle++
 			}
 			// retries on one caching client after a rejected block / header reply
-			if (ps == "h" || ps == "b" || ps == "hl" || ps == "br") && (ri == 1 || ri == 2) && len(honest.sents) > 0 {
+			if (ps == "h" || ps == "b" || ps == "hl" || ps == "br") && (ri == 1 || cfg.Thorough() && ri == 2) && len(honest.sents) > 0 {
 				for _, c := range all {
 					if c.Target == honest.sents[0].Key {
 						addRetry(out, ns, p, r.start, r.limit, c)
@@ -561,6 +622,50 @@ func runC07(cfg Cfg) error {
 			}
 		}
 	}
+	// request sequences over overlapping ranges on one caching client, honest node; then with one corrupted reply
+	// in the middle; a few random ones
+	nreq := 0
+	for pi, ps := range []string{"h", "b", "hr", "hl", "ht", "br", "bl", "bt"} {
+		p := parsePlan(ps)
+		s := uint64(1)
+		if pi%2 == 1 {
+			s = bigStart + 1
+		}
+		for _, seq := range reqSequences(s) {
+			addReqSeq(out, ns, p, seq, "request-sequence")
+			nreq++
+		}
+		// a rejected block/header reply, then a rejected attachment reply, between honest calls
+		fk, ak, apos := "headers", "", 0
+		if p.Blocks {
+			fk = "blocks"
+		}
+		switch {
+		case p.Receipts:
+			ak = "receipts"
+		case p.Logs:
+			ak, apos = "logs", 1
+		case p.Traces:
+			ak = "traces"
+		}
+		bad := []simnode.Corruption{{OnKind: fk, Kind: "renumber", Pos: 0, Arg: int64(s + 6)}}
+		addReqSeq(out, ns, p, []reqStep{{Start: s, Limit: 3}, {Start: s, Limit: 2, Corrupt: bad}, {Start: s, Limit: 2}, {Start: s, Limit: 3}, {Start: s + 1, Limit: 2}}, "request-sequence-corrupted")
+		nreq++
+		if ak != "" {
+			bad2 := []simnode.Corruption{{OnKind: ak, Kind: "null-result", Pos: apos}}
+			addReqSeq(out, ns, p, []reqStep{{Start: s, Limit: 2}, {Start: s, Limit: 3, Corrupt: bad2}, {Start: s, Limit: 3}, {Start: s, Limit: 2}}, "request-sequence-corrupted")
+			nreq++
+		}
+		for k := 0; k < 2; k++ {
+			var seq []reqStep
+			for j := rng.Range(2, 4); j > 0; j-- {
+				seq = append(seq, reqStep{Start: s + uint64(rng.Intn(4)), Limit: uint64(rng.Range(1, 4))})
+			}
+			addReqSeq(out, ns, p, seq, "request-sequence-random")
+			nreq++
+		}
+	}
+	out.Notes["request_sequences"] = nreq
 	// limit 0
 	for _, ps := range []string{"none", "b", "h", "r"} {
 		addGet(out, ns, parsePlan(ps), 5, 0, nil, false, false, "limit-zero")
@@ -608,7 +713,9 @@ func replay(cfg Cfg) error {
 	defer ns.close()
 	switch d.Op {
 	case "Get":
-		if len(d.Retry) > 0 && len(d.Corrupt) > 0 {
+		if len(d.ReqSeq) > 0 {
+			addReqSeq(out, ns, parsePlan(d.Plan), d.ReqSeq, "replay-request-sequence")
+		} else if len(d.Retry) > 0 && len(d.Corrupt) > 0 {
 			addRetry(out, ns, parsePlan(d.Plan), d.Start, d.Limit, d.Corrupt[0])
 		} else {
 			addGet(out, ns, parsePlan(d.Plan), d.Start, d.Limit, d.Corrupt, d.Cached, d.Filtered, "replay")
